@@ -754,6 +754,9 @@ class BasicZoneProcessor: public ZoneProcessor {
       // history. But it seems like too much work right now to try to dig that
       // out, just to implement the explicit check for kMaxCacheEntries. It
       // would mean maintaining another version of zone_specifier.py.
+#if SEANDST_ACETIME_VERIF
+      if (mNumTransitions >= kMaxCacheEntries) mVerifDroppedTransitions++;
+#endif
       if (mNumTransitions >= kMaxCacheEntries) return;
 
       // insert new element at the end of the list
@@ -1058,6 +1061,15 @@ class BasicZoneProcessor: public ZoneProcessor {
       return closestMatch;
     }
 
+#if SEANDST_ACETIME_VERIF
+  public:
+    /** Verification hook: transitions silently dropped by addTransition(). */
+    uint32_t verifDroppedTransitions() const { return mVerifDroppedTransitions; }
+    /** Verification hook: number of cache slots in use. */
+    uint8_t verifNumTransitions() const { return mNumTransitions; }
+  private:
+    mutable uint32_t mVerifDroppedTransitions = 0;
+#endif
     basic::ZoneInfoBroker mZoneInfo;
 
     mutable int8_t mYearTiny = LocalDate::kInvalidYearTiny;
